@@ -49,6 +49,12 @@ pub enum Op {
     LazyExecEntCreate,
     LazyExecEntDelete(u8),
     LazyBuild(u8),
+    /// closure: `world.create_entity().with(component k).build()`
+    LazyExecCreateWith(u8),
+    /// closure: records which entities have component k (join with entities)
+    LazyExecObserve(u8),
+    /// closure: calls `world.maintain()` itself
+    LazyExecMaintain,
 }
 
 pub fn show_ops(ops: &[Op]) -> String {
@@ -108,6 +114,9 @@ enum LazyAct {
     DeleteNow(u32, u8),
     EntCreate(u32),
     EntDelete(u32, u8),
+    CreateWith(u32, u8, u32),
+    Observe(u32, u8),
+    Maintain(u32),
 }
 
 pub struct Hist<A, B, C> {
@@ -174,6 +183,8 @@ struct Shared {
     created: Vec<(u32, Entity)>,
     /// (sequence number, Ok?) of deletions performed by closures.
     deleted: Vec<(u32, bool)>,
+    /// (sequence number, indices seen) by observing closures.
+    observed: Vec<(u32, Vec<u32>)>,
 }
 
 struct Run<'h, A, B, C> {
@@ -630,6 +641,57 @@ impl<'h, A: Tok, B: Tok, C: Tok> Run<'h, A, B, C> {
                 });
                 self.m.queue.push_back(LazyAct::EntDelete(n, *s));
             }
+            Op::LazyExecCreateWith(k) => {
+                if budget < 1 || *k > 2 {
+                    return false;
+                }
+                self.m.created += 1;
+                let n = self.next_seq();
+                let v = 400 + *k as u32;
+                let sh = self.shared.clone();
+                let k2 = *k;
+                self.w.read_resource::<LazyUpdate>().exec_mut(move |w| {
+                    let b = w.create_entity();
+                    let e = match k2 {
+                        0 => b.with(A::make(v)).build(),
+                        1 => b.with(B::make(v)).build(),
+                        _ => b.with(C::make(v)).build(),
+                    };
+                    let mut g = sh.lock().unwrap();
+                    g.log.push(n);
+                    g.created.push((n, e));
+                });
+                self.m.queue.push_back(LazyAct::CreateWith(n, *k, v));
+            }
+            Op::LazyExecObserve(k) => {
+                if *k > 2 {
+                    return false;
+                }
+                let n = self.next_seq();
+                let sh = self.shared.clone();
+                let k2 = *k;
+                self.w.read_resource::<LazyUpdate>().exec(move |w| {
+                    let ents = w.entities();
+                    let ids: Vec<u32> = match k2 {
+                        0 => (&ents, &w.read_storage::<A>()).join().map(|(e, _)| e.id()).collect(),
+                        1 => (&ents, &w.read_storage::<B>()).join().map(|(e, _)| e.id()).collect(),
+                        _ => (&ents, &w.read_storage::<C>()).join().map(|(e, _)| e.id()).collect(),
+                    };
+                    let mut g = sh.lock().unwrap();
+                    g.log.push(n);
+                    g.observed.push((n, ids));
+                });
+                self.m.queue.push_back(LazyAct::Observe(n, *k));
+            }
+            Op::LazyExecMaintain => {
+                let n = self.next_seq();
+                let sh = self.shared.clone();
+                self.w.read_resource::<LazyUpdate>().exec_mut(move |w| {
+                    sh.lock().unwrap().log.push(n);
+                    w.maintain();
+                });
+                self.m.queue.push_back(LazyAct::Maintain(n));
+            }
             Op::LazyBuild(k) => {
                 if budget < 1 || *k > 2 {
                     return false;
@@ -672,17 +734,26 @@ impl<'h, A: Tok, B: Tok, C: Tok> Run<'h, A, B, C> {
     }
 
     fn maintain(&mut self) {
-        let (log0, created0, deleted0) = {
+        let (log0, created0, deleted0, observed0) = {
             let g = self.shared.lock().unwrap();
-            (g.log.len(), g.created.len(), g.deleted.len())
+            (g.log.len(), g.created.len(), g.deleted.len(), g.observed.len())
         };
         self.w.maintain();
-        // model
+        let (log, created, deleted, observed) = {
+            let g = self.shared.lock().unwrap();
+            (
+                g.log[log0..].to_vec(),
+                g.created[created0..].to_vec(),
+                g.deleted[deleted0..].to_vec(),
+                g.observed[observed0..].to_vec(),
+            )
+        };
+        // model: merge, then run the queue front to back (actions may push back)
         self.m.merge();
         let mut exp_log: Vec<u32> = vec![];
-        let mut exp_created: Vec<(u32, St)> = vec![];
         let mut exp_deleted: Vec<(u32, bool)> = vec![];
-        let mut new_slots: Vec<usize> = vec![];
+        let mut exp_observed: Vec<(u32, Vec<u32>)> = vec![];
+        let mut ci = 0usize;
         while let Some(act) = self.m.queue.pop_front() {
             match act {
                 LazyAct::Insert(s, k, v) => {
@@ -712,18 +783,25 @@ impl<'h, A: Tok, B: Tok, C: Tok> Run<'h, A, B, C> {
                     exp_log.push(n);
                     self.m.queue.push_back(LazyAct::Insert(s, k, tok_val(s, k) + 300));
                 }
-                LazyAct::CreateNow(n) => {
+                LazyAct::CreateNow(n) | LazyAct::EntCreate(n) | LazyAct::CreateWith(n, _, _) => {
                     exp_log.push(n);
-                    exp_created.push((n, St::Merged));
-                    // slot is appended below once the handle is known
-                    new_slots.push(self.m.handles.len() + new_slots.len());
-                    // model slot must exist before later actions refer to it: they cannot
-                    // (ops only name slots that existed when they were queued).
-                }
-                LazyAct::EntCreate(n) => {
-                    exp_log.push(n);
-                    exp_created.push((n, St::Unmerged));
-                    new_slots.push(self.m.handles.len() + new_slots.len());
+                    match created.get(ci) {
+                        Some((m, e)) if *m == n => {
+                            ci += 1;
+                            let st = if matches!(act, LazyAct::EntCreate(_)) { St::Unmerged } else { St::Merged };
+                            let slot = self.m.handles.len() as u8;
+                            // budget was consumed when the closure was queued
+                            self.m.created -= 1;
+                            self.new_slot(*e, st, false);
+                            if let LazyAct::CreateWith(_, k, v) = act {
+                                self.m.comp[k as usize].insert(slot, v);
+                            }
+                        }
+                        other => {
+                            fail!(self, Prop::C09, "lazy-create: closure {} did not create its entity in order (got {:?})", n, other);
+                            self.m.queue.clear();
+                        }
+                    }
                 }
                 LazyAct::DeleteNow(n, s) => {
                     exp_log.push(n);
@@ -741,16 +819,23 @@ impl<'h, A: Tok, B: Tok, C: Tok> Run<'h, A, B, C> {
                         self.m.pending[s as usize] = true;
                     }
                 }
+                LazyAct::Observe(n, k) => {
+                    exp_log.push(n);
+                    let mut ids: Vec<u32> = self.m.comp[k as usize]
+                        .keys()
+                        .filter(|s| self.m.st[**s as usize] != St::Dead)
+                        .map(|s| self.m.handles[*s as usize].id())
+                        .collect();
+                    ids.sort();
+                    exp_observed.push((n, ids));
+                }
+                LazyAct::Maintain(n) => {
+                    exp_log.push(n);
+                    // the nested maintain merges, then keeps draining the same queue
+                    self.m.merge();
+                }
             }
         }
-        let (log, created, deleted) = {
-            let g = self.shared.lock().unwrap();
-            (
-                g.log[log0..].to_vec(),
-                g.created[created0..].to_vec(),
-                g.deleted[deleted0..].to_vec(),
-            )
-        };
         for x in &log {
             self.obs(*x as u64);
         }
@@ -760,17 +845,11 @@ impl<'h, A: Tok, B: Tok, C: Tok> Run<'h, A, B, C> {
         if deleted != exp_deleted {
             fail!(self, Prop::C09, "lazy-delete-result: closure deletions {:?}, expected {:?}", deleted, exp_deleted);
         }
-        if created.len() != exp_created.len() {
-            fail!(self, Prop::C09, "lazy-create: {} closure creations, expected {}", created.len(), exp_created.len());
+        if observed != exp_observed {
+            fail!(self, Prop::C09, "lazy-observe: closures saw components at {:?}, expected {:?}", observed, exp_observed);
         }
-        // budget was consumed at queue time: undo the double count in new_slot
-        for (i, (n, e)) in created.iter().enumerate() {
-            let st = exp_created.get(i).map(|x| x.1).unwrap_or(St::Merged);
-            if exp_created.get(i).map(|x| x.0) != Some(*n) {
-                fail!(self, Prop::C09, "lazy-create: creation order differs");
-            }
-            self.m.created -= 1;
-            self.new_slot(*e, st, false);
+        if ci != created.len() {
+            fail!(self, Prop::C09, "lazy-create: {} closure creations, expected {}", created.len(), ci);
         }
         self.m.log.extend(exp_log);
     }
@@ -1146,6 +1225,9 @@ impl<'h, A: Tok, B: Tok, C: Tok> Run<'h, A, B, C> {
                     LazyAct::DeleteNow(_, s) => (7u8, r(s)).hash(&mut hsh),
                     LazyAct::EntCreate(_) => 8u8.hash(&mut hsh),
                     LazyAct::EntDelete(_, s) => (9u8, r(s)).hash(&mut hsh),
+                    LazyAct::CreateWith(_, k, _) => (10u8, *k).hash(&mut hsh),
+                    LazyAct::Observe(_, k) => (11u8, *k).hash(&mut hsh),
+                    LazyAct::Maintain(_) => 12u8.hash(&mut hsh),
                 }
             }
         }
@@ -1230,10 +1312,13 @@ impl<'h, A: Tok, B: Tok, C: Tok> Run<'h, A, B, C> {
             }
             v.push(Op::LazyExecLog);
             v.push(Op::LazyExecNested);
+            v.push(Op::LazyExecObserve(0));
+            v.push(Op::LazyExecMaintain);
             if budget >= 1 {
                 v.push(Op::LazyExecCreateNow);
                 v.push(Op::LazyExecEntCreate);
                 v.push(Op::LazyBuild(0));
+                v.push(Op::LazyExecCreateWith(0));
             }
         }
         v.sort();
